@@ -110,6 +110,11 @@ pub struct BrokerCfg {
     /// bytes (whole frames) the server sends right behind OpenOk: the first `.1` of them in the very same
     /// write as OpenOk, the rest `.2` ns later
     pub glue_after_open_ok: Option<(Vec<u8>, usize, u64)>,
+    /// RawStream with then_eof: the end of stream arrives together with the last segment (same instant)
+    /// instead of one gap later
+    pub raw_eof_with_last_segment: bool,
+    /// the server reads Connection.Open and then never sends anything again (no OpenOk)
+    pub silent_instead_of_open_ok: bool,
     pub script: Vec<(Trigger, Action)>,
     /// cut the server->client stream at this absolute offset
     pub s2c_cut: Option<(usize, CutKind)>,
@@ -183,6 +188,8 @@ impl Default for BrokerCfg {
             closeok_mode: CloseOkMode::Later,
             eof_after_server_close: true,
             glue_after_open_ok: None,
+            raw_eof_with_last_segment: false,
+            silent_instead_of_open_ok: false,
             script: Vec::new(),
             s2c_cut: None,
             s2c_corrupt: None,
@@ -1119,7 +1126,8 @@ impl Broker {
                 if then_eof {
                     self.s2c_closed = true;
                     self.eof_sent_at = Some(now);
-                    simrt::schedule(at, true, "net.eof", Box::new(NetEv::S2CEof));
+                    let eof_at = if self.cfg.raw_eof_with_last_segment { at.saturating_sub(gap_ns) } else { at };
+                    simrt::schedule(eof_at, true, "net.eof", Box::new(NetEv::S2CEof));
                 }
             }
             Action::Eof => {
@@ -1345,6 +1353,10 @@ impl Broker {
                     self.phase = Phase::AwaitOpen;
                 }
                 Cn::Open(o) => {
+                    if self.cfg.silent_instead_of_open_ok {
+                        self.silent = true;
+                        return;
+                    }
                     self.open = Some(o);
                     self.phase = Phase::Open;
                     let t = self.think();
